@@ -57,6 +57,81 @@ SENTINELS = {}          # text -> first outcome summary (same process); re-parse
 STATE = {"n": 0}
 
 
+def digit_separator_texts():
+    out = []
+    for n in (20, 25, 30, 35, 40, 60, 100, 400):
+        out += ["9" * n + "_", "_" + "9" * n, "9" * n + "__1", "1__" + "9" * n, "9" * n + "_.5", "1." + "3" * n + "_", "1._" + "3" * n,
+                "0x" + "f" * n + "_", "0b" + "1" * n + "__0", "9" * n + "_a", "9" * n + "_ + 1", "[" + "9" * n + "_]", "x" + "9" * n + "_",
+                "1" * n + "." + "2" * n + "." + "3" * n, "9" * n + "e5", "'" + "9" * n + "_'", "9_" * n, "9_" * n + "_",
+                "//" + "(a+)+" * 3 + "$//", "'" + "a" * n + "' matches //(a+)+$//", "def f(" + "a, " * n + "b) 1", "f(" + "1, " * n + ")"]
+    return out
+
+
+CPU_CHILD = r"""
+import json, resource, sys
+resource.setrlimit(resource.RLIMIT_CPU, (%d, %d))
+import ckl.parser
+from ckl.errors import CklSyntaxError
+texts = json.load(open(sys.argv[1]))
+prog = open(sys.argv[2], "w")
+for i, t in enumerate(texts):
+    prog.write("%%d start\n" %% i); prog.flush()
+    try:
+        r = ckl.parser.parse_script(t, "c01.ckl")
+        k = "program" if callable(getattr(r, "evaluate", None)) else "no-program"
+    except CklSyntaxError as e:
+        k = "syntax" if (e.pos is not None and getattr(e, "msg", None)) else "syntax-malformed"
+    except BaseException as e:
+        k = "host:" + type(e).__name__
+    prog.write("%%d %%s\n" %% (i, k)); prog.flush()
+"""
+
+
+def run_cpu_limited(ctx, texts, cpu_seconds=15):
+    """each text is parsed in a child whose CPU time is capped at 15 s (an ordinary parse of these texts takes
+    milliseconds): being killed by the CPU limit while parsing text i is the refuting event - CPU time, unlike wall
+    time, does not depend on how loaded the machine is"""
+    import json
+    import os
+    import subprocess
+    import sys
+    work = os.getcwd()
+    remaining = list(enumerate(texts))
+    rounds = 0
+    while remaining and rounds < 3:
+        rounds += 1
+        tf = os.path.join(work, "cpu_texts_%d.json" % rounds)
+        pf = os.path.join(work, "cpu_progress_%d.txt" % rounds)
+        json.dump([t for i, t in remaining], open(tf, "w"))
+        env = dict(os.environ)
+        env["PYTHONPATH"] = os.path.join(core.REPO, "src")
+        p = subprocess.run([sys.executable, "-B", "-c", CPU_CHILD % (cpu_seconds, cpu_seconds + 5), tf, pf], capture_output=True, text=True, env=env, timeout=3600)
+        lines = open(pf).read().split("\n") if os.path.exists(pf) else []
+        done = {}
+        started = None
+        for ln in lines:
+            parts = ln.split(" ", 1)
+            if len(parts) == 2:
+                if parts[1] == "start":
+                    started = int(parts[0])
+                else:
+                    done[int(parts[0])] = parts[1]
+        for j, kind in done.items():
+            i, t = remaining[j]
+            ctx.count("cpu_limited_parses")
+            ctx.case(("cpu", t), nontrivial=True)
+            if kind.startswith("host:") or kind in ("no-program", "syntax-malformed"):
+                ctx.violation("C01:%s:cpu-limited" % kind, "parse of %r -> %s" % (t[:120], kind), {"text": t})
+        if started is not None and started not in done:
+            i, t = remaining[started]
+            ctx.count("cpu_limited_parses")
+            ctx.violation("C01:hang:cpu-limit", "parse of %r (%d characters) was still running after %d s of CPU time (exit status %s)" % (
+                t[:120], len(t), cpu_seconds, p.returncode), {"text": t})
+            remaining = remaining[started + 1:]
+        else:
+            remaining = []
+
+
 def recheck_sentinels(ctx):
     """'the same text always gives the same outcome' also after thousands of other (failing) parses in this
     process: state leaking from one parse into the next shows up here"""
@@ -251,13 +326,9 @@ def run_shard(spec, ctx):
             mix = [r.choice(opens) for _ in range(d)]
             check_text(ctx, "".join(o for o, c in mix) + "1" + "".join(c for o, c in reversed(mix)), deep=False)
             ctx.count("deep_nesting_texts", 2 * len(opens) + 1)
-        # digit runs with separators in every position (a validating pattern that backtracks shows as a hang)
-        for n in (20, 25, 30, 35, 40, 60, 100, 400):
-            for text in ("9" * n + "_", "_" + "9" * n, "9" * n + "__1", "1__" + "9" * n, "9" * n + "_.5", "1." + "3" * n + "_", "1._" + "3" * n,
-                         "0x" + "f" * n + "_", "0b" + "1" * n + "__0", "9" * n + "_a", "9" * n + "_ + 1", "[" + "9" * n + "_]", "x" + "9" * n + "_",
-                         "1" * n + "." + "2" * n + "." + "3" * n, "9" * n + "e5", "'" + "9" * n + "_'", "9_" * n, "9_" * n + "_"):
-                check_text(ctx, text, deep=False)
-                ctx.count("long_token_texts")
+        # digit runs with separators in every position: parsed in a child process under a CPU-time limit, because time
+        # spent inside the host's regex engine or other native code is invisible to the logical step clock
+        run_cpu_limited(ctx, digit_separator_texts())
         # very long single tokens
         for n in (100, 1000, 4299, 4300, 4301, 5000, 20000):
             for text in ("9" * n, "1" + "0" * n, "0x" + "f" * n, "0b" + "1" * n, "1_" * n + "1", "0." + "3" * n, "9" * n + ".5",
@@ -298,6 +369,8 @@ def finalize(merged, tier):
     extra["xproc_agree"] = len(digs) == 1
     if len(xs) < 2 or None in digs:
         reasons.append("cross-process determinism shards did not all report")
+    if c.get("cpu_limited_parses", 0) == 0:
+        reasons.append("no parses under the CPU-time limit")
     viol = []
     if len(xs) >= 2 and None not in digs and len(digs) != 1:
         a, b = xs[0][1]["xproc_each"], None
